@@ -470,6 +470,32 @@ func c05Case(t *core.T, steps int, defaultScrypt bool) {
 					continue
 				}
 			}
+			if own2 == nil || own2Addr == ownAddr {
+				// a coin on another address, when the wallet has one, so that a signing call has to
+				// derive two keys
+				if list, err := w.W.GetAddresses(0); err == nil {
+					for _, a := range list {
+						if a.Address == ownAddr {
+							continue
+						}
+						if hh, err := sim.HashOfAddress(a.Address); err == nil {
+							cb := sim.Coinbase(n.Height()+1, t.R.Uint64(), []*wire.TxOut{wire.NewTxOut(int64(30000000+t.R.Intn(1000000)), sim.P2WSH(hh))})
+							b := n.NewBlock(n.Tip(), []*wire.MsgTx{cb})
+							if err := n.Extend(b); err != nil {
+								t.Fatalf("extend: %v", err)
+							}
+							w.Deliver(b)
+							w.Quiesce(30 * time.Second)
+							logf("block %d pays another address of %s", b.Height, x.id[:8])
+							findOwn()
+						}
+						break
+					}
+				}
+				if own == nil {
+					continue
+				}
+			}
 			var strangerH [32]byte
 			copy(strangerH[:], t.R.Bytes(32))
 			ins := []wire.OutPoint{*own}
@@ -485,6 +511,9 @@ func c05Case(t *core.T, steps int, defaultScrypt bool) {
 				ins = append(ins, *own2)
 				ownVal += own2Val
 				t.Count("signing_calls_with_two_wallet_inputs", 1)
+				if own2Addr != ownAddr {
+					t.Count("signing_calls_with_inputs_on_two_addresses", 1)
+				}
 			}
 			tx := sim.Spend(ins, nil, []*wire.TxOut{wire.NewTxOut(ownVal/2, sim.P2WSH(strangerH))}, t.R.Uint64()|1)
 			stripWitness(tx)
@@ -573,6 +602,13 @@ func c05Case(t *core.T, steps int, defaultScrypt bool) {
 								<-fin
 							}
 						}
+						// half of the parked rounds see only the rightful export of a second client (a refused
+						// signing attempt locks the keystore again on its way out, which would hide what the
+						// export does to the keys the parked call still needs)
+						onlyExport := t.R.Bool()
+						if onlyExport {
+							blocked = true // skips the refused attempts below; undone before the export
+						}
 						attempt("ExportWallet", func(p string) error { _, err := w.W.ExportWallet(x.id, p); return err })
 						attempt("GetMnemonic", func(p string) error { _, _, err := w.W.GetMnemonic(x.id, p); return err })
 						// a second client that signs (the same transaction, or a hash under the key of the
@@ -615,6 +651,9 @@ func c05Case(t *core.T, steps int, defaultScrypt bool) {
 						})
 						// a second client that exports with the RIGHT passphrase: allowed, and the signing call
 						// must not suffer from it
+						if onlyExport {
+							blocked = false
+						}
 						if !blocked && !t.Failed() && !x.removed {
 							fin := make(chan error, 1)
 							go func() {
